@@ -15,12 +15,12 @@ from numbers import Integral
 
 import numpy as np
 
-from odl.set import LinearSpace
+from odl.set import ComplexNumbers, LinearSpace
 from odl.set.space import LinearSpaceElement
 from odl.space.weighting import (
     ArrayWeighting, ConstWeighting, CustomDist, CustomInner, CustomNorm,
     Weighting)
-from odl.util import indent, is_real_dtype, signature_string
+from odl.util import indent, signature_string
 from odl.util.ufuncs import ProductSpaceUfuncs
 
 __all__ = ('ProductSpace',)
@@ -1621,15 +1621,18 @@ class ProductSpaceArrayWeighting(ArrayWeighting):
                                       'exponent != 2 (got {})'
                                       ''.format(self.exponent))
 
+        # The component inner products are elements of the common field;
+        # the components need not have a (common) `dtype`
+        is_complex = (x1.space.field == ComplexNumbers())
         inners = np.fromiter(
             (x1i.inner(x2i) for x1i, x2i in zip(x1, x2)),
-            dtype=x1[0].space.dtype, count=len(x1))
+            dtype=complex if is_complex else float, count=len(x1))
 
         inner = np.dot(inners, self.array)
-        if is_real_dtype(x1[0].dtype):
-            return float(inner)
-        else:
+        if is_complex:
             return complex(inner)
+        else:
+            return float(inner)
 
     def norm(self, x):
         """Calculate the array-weighted norm of an element.
@@ -1729,9 +1732,12 @@ class ProductSpaceConstWeighting(ConstWeighting):
                                       'exponent != 2 (got {})'
                                       ''.format(self.exponent))
 
+        # The component inner products are elements of the common field;
+        # the components need not have a (common) `dtype`
+        is_complex = (x1.space.field == ComplexNumbers())
         inners = np.fromiter(
             (x1i.inner(x2i) for x1i, x2i in zip(x1, x2)),
-            dtype=x1[0].space.dtype, count=len(x1))
+            dtype=complex if is_complex else float, count=len(x1))
 
         inner = self.const * np.sum(inners)
         return x1.space.field.element(inner)
